@@ -550,9 +550,15 @@ def main_check(pid, tier, seed, replay=None):
             nontrivial.add(stable_key(k))
     samples = []
     for r in recs[:: max(1, len(recs) // 4)][:4]:
-        samples.append(mod.describe(r["case"], r["impl"]) if hasattr(mod, "describe") else
-                       {"case": r["case"], "impl": r["impl"]})
-    hist = mod.histogram([r["case"] for r in recs]) if hasattr(mod, "histogram") else {}
+        try:
+            samples.append(mod.describe(r["case"], r["impl"]) if hasattr(mod, "describe") else
+                           {"case": r["case"], "impl": r["impl"]})
+        except Exception:  # noqa: BLE001 - a describe() that cannot digest an odd observation must not end the check
+            samples.append({"case": r["case"], "impl": r["impl"]})
+    try:
+        hist = mod.histogram([r["case"] for r in recs]) if hasattr(mod, "histogram") else {}
+    except Exception as e:  # noqa: BLE001
+        hist = {"histogram_failed": repr(e)}
     n_thm = len(coq.get("theorems", []))
     tb = list(getattr(mod, "TRUSTED", []))
     tb = [
